@@ -120,9 +120,12 @@ PROPS = {
     "C12": {
         "statement": "Scenario.C12_thread_local_last (order part); thread placement by the trace model",
         "engines": [plan("tl,plan,kf1"), trace("tl,base,kf1", quick=60),
-                    # the async dispatcher: thread-local systems run inside `wait`, on the caller, once per wait
-                    {"engine": "asyncd", "args": {}, "quick": {"cases": 300}, "thorough": {"cases": 10000}}],
-        "also": {"C15": ["tl-count", "tl-outside-wait", "tl-thread", "tl-before-finish"]},
+                    # the async dispatcher: thread-local systems run inside `wait`, on the caller, once per wait, in
+                    # registration order, only for a dispatch that ran to completion (hist = 1: every entry point in
+                    # every job state incl. after a panic of an ordinary system; a panic of a thread-local system
+                    # inside wait, followed by further waits)
+                    {"engine": "asyncd", "args": {}, "quick": {"cases": 300, "hist": 1}, "thorough": {"cases": 10000, "hist": 2}}],
+        "also": {"C15": ["tl-count", "tl-order", "tl-outside-wait", "tl-thread", "tl-before-finish"]},
         "aspects": TRACE,
         "probes": [{"dir": "probes/not_send", "expect": "fail", "grep": "cannot be sent between threads safely", "why": "Dispatcher must not be Send (it may hold thread-local systems)"},
                    {"dir": "probes/send_ok", "expect": "compile", "why": "SendDispatcher must be Send"},
@@ -134,8 +137,13 @@ PROPS = {
         "statement": "C13_setup_reaches / C13_dispose_reaches / C13_dispose_matches_setup (fan-out, any nesting depth), Scenario.C13_setup_dispose_once, C13_setup_preserves / _creates / _creates_only / _idempotent",
         "engines": [{"engine": "lifecycle", "args": {}, "quick": {"cases": 200}, "thorough": {"cases": 20000}, "search": {"cases": 5000}},
                     # setup of every provided / derived system-data type: the [setup] oracle of the sysdata engine
-                    {"engine": "sysdata", "args": {}, "quick": {"exhaust-upto": 6, "samples": 20, "pre-samples": 10}, "thorough": {"exhaust-upto": 8, "samples": 200, "pre-samples": 50}}],
-        "also": {"C06": ["[setup]"]},
+                    {"engine": "sysdata", "args": {}, "quick": {"exhaust-upto": 6, "samples": 20, "pre-samples": 10}, "thorough": {"exhaust-upto": 8, "samples": 200, "pre-samples": 50}},
+                    # AsyncDispatcher::setup in every job state (idle / a system inside run / job not started / finished
+                    # unobserved), repeated, with the default-provided resources removed / replaced through world_mut()
+                    # in between: hook of every ordinary and thread-local system exactly once, resources created, existing
+                    # ones untouched
+                    {"engine": "asyncd", "args": {}, "quick": {"cases": 100, "hist": 1}, "thorough": {"cases": 3000, "hist": 2}}],
+        "also": {"C06": ["[setup]"], "C15": ["setup-hooks", "setup-resource", "setup-overwrite"]},
         "aspects": ["lifecycle", "outcome", "setup"],
         "assumptions": ["the world part of the theorems covers the controller data types the harness uses; every system-data type is C06's subject"],
     },
@@ -169,14 +177,14 @@ PROPS = {
         "assumptions": [],
     },
     "C15": {
-        "statement": "Async.accessor_quiescent / dispatch_quiescent / running_true_while_open / running_false_only_done / no_overtake / tl_only_in_wait / wait_runs_tl / each_once / each_at_most_once / quiet_quiescent / quiet_stutters / blocked_only_while_running over every run (all interleavings of caller steps — every public method incl. res / mut_res, in every order —, background-job steps and the environment's look at the systems' own completion signal) of the transition system of Model/Async.lean; acceptsLog_sound transfers them to every merged log the driver accepts",
-        # hist = n: every sequence of n steps (entry point x {idle, held, queued, settled}); 36^n cases
-        "engines": [{"engine": "asyncd", "args": {}, "quick": {"cases": 600, "hist": 2}, "thorough": {"cases": 20000, "hist": 3},
+        "statement": "Async.accessor_quiescent / dispatch_quiescent / running_true_while_open / running_false_only_done / no_overtake / tl_only_in_wait / wait_runs_tl / each_once / each_at_most_once / quiet_quiescent / quiet_stutters / blocked_only_while_running / job_panic_no_return / job_panic_no_tl / job_panic_no_hook / job_panic_no_quiet / job_panic_no_next_dispatch / dead_every_call_unwinds / unwound_cases / tl_panic_keeps_dispatcher / setup_reaches / hook_only_in_setup over every run (all interleavings of caller steps — every public method incl. res / mut_res, in every order —, background-job steps and the environment's look at the systems' own completion signal) of the transition system of Model/Async.lean; acceptsLog_sound transfers them to every merged log the driver accepts",
+        # hist = n: every sequence of n steps (11 entry points x {idle, held, queued, settled, panicked, panicking}); 66^n cases
+        "engines": [{"engine": "asyncd", "args": {}, "quick": {"cases": 600, "hist": 2}, "thorough": {"cases": 20000, "hist": 3, "hist-stride": 6},
                      "search": {"cases": 6000, "hist": 2}}],
         "aspects": ["*"],
         "assumptions": [
             "std::sync::mpsc: recv returns only after send; try_recv never invents a message (modelled as a one-slot mailbox, not verified)",
-            "rayon ThreadPool::spawn runs the closure once on a pool thread; a panic inside it aborts the process (outside the model)",
+            "rayon ThreadPool::spawn runs the closure once on a pool thread; a panic inside it unwinds the closure (dropping its captures, the sender among them) and then calls the pool's panic_handler — the harness pools have one; without a handler rayon aborts the process (outside the model); for_each re-raises a group's panic only after every group that has started has ended",
             "the job's stage loop produces exactly the traces of the stages task of the model's layout (C01-C04 correspondence)",
             "one SeqCst-ordered log: F is logged before the first borrow and D after the last release, ret after the call returned",
             "a call is reported as stuck (MODEL:async-progress) only after the calling thread has been seen parked inside it at every sample over 5 s while no system is inside run, nothing is held by the harness and every pool worker is parked (Linux /proc thread states; without them no such report is made)",
@@ -257,10 +265,10 @@ TEXT = {
     "C09": "Proof: refinement of the world to a map ResId -> token (every operation commutes with the abstraction and answers what the map answers), type-tag invariant, mismatch panics leave the world unchanged, value accounting (each token in exactly one of world / returned / dropped) - also when the Drop of a value panics where the world drops it (insert replacing: the new value is in place first; or_insert on an occupied slot; the caller dropping a removed value; the world's own drop, which may leak but never drops twice) and when or_insert_with's closure or the caller holding the entry guard panics. Tied by random histories incl. mismatching type arguments with drop counters and a one-shot panicking Drop armed at each of those places, the accounting checked from the drop log before any stored value is looked at again.",
     "C10": "Proof: every stage the code's insertion_target skips is justified by a conflicting earlier system or a dependency at/behind it (on the five tables of the code, for every registration sequence, after repair D3); compatible dependency-free systems share one stage; max_threads is the widest stage. Tied by exact layout comparison and max_threads().",
     "C11": "Proof about a pool MODEL (assumption about rayon): with >= n idle workers n rendezvous systems always meet and never deadlock; with fewer they do deadlock (the executable prediction is exact); plus a model of builder.rs's pool slots: which pool every dispatcher (top level, batch, nested batch) runs on - the default pool has rayon's default size whatever dispatcher created it, a supplied pool serves the top level and its batches. PARTIAL by nature: the tie is the complete enumeration of widths 2-16 x pool sizes x {user pool, default pool, batch-inner, async, foreign caller} and generated plans x configurations (hints, group sizes, multi-stage, nested batches, default pool sized by the harness in child processes, pools given early / late / to batch builders, build / build_async) with real rendezvous runs on the stages of the implementation's own plan, which must equal the model's plan; plus a model of the async dispatcher over call sequences (the caller, never a pool thread, waits for the previous dispatch; every dispatch has the whole pool), tied by generated sequences of dispatch / wait / wait_without_tl / running / world with the wide stage behind a slow first stage.",
-    "C12": "Proof: thread-local systems start after all staged systems, run in registration order, are assigned the caller's thread by the thread table the driver compares every event with; sendable iff no thread-local systems; KF1 is proved as a witness (C12_kf1_witness). Tied by traces with thread kinds, try_into_sendable, compile probes (Dispatcher !Send), the async dispatcher's wait. PARTIAL: open finding KF1.",
-    "C13": "Proof: setup / dispose reach exactly the systems of the layout, batches expanded, at any depth (dispose = setup after repair D2); setup never changes an existing resource, creates exactly the default-provided ones, is idempotent. Tied by hook counters, world diffs on pre-populated worlds, and the setup oracle over every system-data type.",
+    "C12": "Proof: thread-local systems start after all staged systems, run in registration order, are assigned the caller's thread by the thread table the driver compares every event with; sendable iff no thread-local systems; KF1 is proved as a witness (C12_kf1_witness). Tied by traces with thread kinds, try_into_sendable, compile probes (Dispatcher !Send), the async dispatcher's wait (every entry point in every job state, panics of ordinary systems inside the job and of thread-local systems inside wait). PARTIAL: open finding KF1.",
+    "C13": "Proof: setup / dispose reach exactly the systems of the layout, batches expanded, at any depth (dispose = setup after repair D2); setup never changes an existing resource, creates exactly the default-provided ones, is idempotent. Tied by hook counters, world diffs on pre-populated worlds, the setup oracle over every system-data type, and AsyncDispatcher::setup called in every job state with resources removed in between.",
     "C14": "Proof about every log the driver's panic-aware acceptor accepts: a panic is reported iff a system was unwound, nothing ordered after an unwound system starts, nothing starts twice, every opened window is closed; the acceptor accepts every declaratively legal execution. Tied by injecting a panic into every placed system in turn (run / fetch), payload, borrow probe, clean re-dispatch. PARTIAL: rayon's re-raise and unwinding are assumed; rayon may leave out unstarted siblings (modelled).",
-    "C15": "Proof over all interleavings of caller and background-job steps of the async state machine: accessor quiescence, running() truthfulness, no overtaking, thread-local systems only inside wait on the caller, each dispatch once; accepted logs are runs. Tied by gated real runs. PARTIAL: mpsc and rayon spawn are modelled.",
+    "C15": "Proof over all interleavings of caller and background-job steps of the async state machine: accessor quiescence, running() truthfulness, no overtaking, thread-local systems only inside wait on the caller, each dispatch once; a dispatch in which a system panicked is never reported complete (every later call unwinds, no thread-local system starts), a thread-local panic inside wait leaves the dispatcher and its thread-local list intact, setup joins the dispatch and reaches every system in every job state; accepted logs are runs. Tied by gated real runs with panics injected at every position (pools with a panic handler). PARTIAL: mpsc and rayon spawn are modelled.",
     "C16": "Proof: every leaf once, seq order, par may overlap, reads/writes = concatenation over the leaves' own accessors (not their accessor types' defaults), every setup call of any history reaches every leaf and only extends the world, Par::with's debug check fails iff a leaf-level conflict exists; trees that pass the checks are isolated. Tied by run-time assembled real Par/Seq trees (depth <= 5, fan-out <= 6; explicit calls and par!/seq!), leaves of four accessor flavours, reads()/writes() of every node, scripts of setup calls (same / fresh world, after removal, both entry points) each followed by dispatches, pools held by reference and by Arc, traces, debug-assertion panics.",
     "C17": "Proof: the table invariant under any register history, get/get_mut specification, one next step and whole iteration (first-registration order, once each, exactly the registered present types, shared vs exclusive borrows), bad casts panic at every use whatever the implementor (registration checks nothing), a returned reference always has the resource's address. Tied by forty implementing types (zero-sized / sized / Drop / aligned / generic, each with the lawful CastFrom and wrong ones of six shapes), tables for a plain trait and for a trait with supertraits, all presence subsets, exhaustive small scopes; both iterators are also driven through the provided Iterator methods (nth, skip, step_by, take, last, count, fold, for_each, collect, size_hint, zip, by_ref then next) and must give what the next-sequence gives.",
     "C18": "Proof: add panics iff a dependency is unknown (first such) or a non-empty name is taken; every other registration succeeds; group size <= 4 < 5, running times <= 20, targets in bounds, for every registration sequence and every builder state reachable through accepted and rejected calls. Tied by a malformed stream at every position and deep funnels.",
